@@ -399,6 +399,37 @@ func main() {
 			levels = append(levels, cur)
 			all = append(all, cur...)
 		}
+		if !run.Thorough() && (base == "" || base == "int16" || base == "uint64") {
+			// quick tier: left- and right-leaning trees of depth 3 over a small leaf set, so that a parenthesised group
+			// holding two operators occurs in first, middle and last position of a longer expression
+			small := []expr{leaves[0], leaves[1], leaves[2], leaves[3], leaves[5]}
+			ops := []string{"|", "&", "<<", ">>"}
+			var d1, d2 []expr
+			for _, op := range ops {
+				for _, a := range small {
+					for _, b := range small {
+						d1 = append(d1, combine(op, a, b, lo, hi, width))
+					}
+				}
+			}
+			for _, op := range ops {
+				for _, x := range d1 {
+					for _, l := range small {
+						d2 = append(d2, combine(op, x, l, lo, hi, width), combine(op, l, x, lo, hi, width))
+					}
+				}
+			}
+			for _, op := range ops {
+				for _, y := range d2 {
+					if !y.fits {
+						continue
+					}
+					for _, l := range small {
+						all = append(all, combine(op, y, l, lo, hi, width), combine(op, l, y, lo, hi, width))
+					}
+				}
+			}
+		}
 		hdr := "[flags]\nenum F"
 		if base != "" {
 			hdr += " : " + base
